@@ -606,10 +606,12 @@ def media_chain(ctx):
     allowed = {
         ('Surface', 'material_pre'): {'Surface.__init__', 'Optic.set_index',
                                       'SurfaceGroup.inverted',
-                                      'SurfaceGroup.remove_surface'},
+                                      'SurfaceGroup.remove_surface',
+                                      'SurfaceGroup.from_dict'},
         ('Surface', 'material_post'): {'Surface.__init__', 'Optic.set_index',
                                        'SurfaceGroup.inverted',
-                                       'SurfaceGroup.remove_surface'},
+                                       'SurfaceGroup.remove_surface',
+                                       'SurfaceGroup.from_dict'},
         ('Surface', 'is_stop'): {'Surface.__init__', 'SurfaceGroup.add_surface'},
         ('Wavelength', 'is_primary'): {'Wavelength.__init__',
                                        'WavelengthGroup.add_wavelength'},
